@@ -30,8 +30,9 @@ NAME_LISTS = [[b"From", b"Subject", b"To", b"Date"], [b"from", b"subject"], [b"F
 BODIES = [b"", b"\r\n", b"\r\n\r\n\r\n", b" \r\n", b" \t \r\n\t\r\n", b"body text\r\nsecond\r\n", b"no final newline", b"trailing  \r\n\r\n\r\n", b"a  b\t\tc \t\r\nx \r\n",
           b"ends with spaces   ", b"\tlead\r\n", b"lone\rcr and\nlf\r\n", b".\r\n..\r\n", "héllo wörld\r\n".encode(), b"x" * 1200 + b"\r\n", b"line\r\n" * 300 + b"\r\n" * 5,
           b"a\r\n\r\nb\r\n", b"a \r\n \r\nb", b"   ", b"\r\n a"]
-SUBJECTS = [b"Hello world", b"", b"  two  spaces\tand tab ", "Grüße aus Köln – encoded words".encode(), b"a" * 200, b"word " * 40, b"trailing blank ", b"x:y; b=zzz; bh=qqq", b"fold " + b"f" * 70 + b" end"]
-XVALS = [None, b"plain", b"with  double  blanks", b"tab\there", "ünï".encode(), b"v" * 1500, b"b=fake; h=from"]
+SUBJECTS = [b"Hello world", b"", b"  two  spaces\tand tab ", "Grüße aus Köln – encoded words".encode(), b"a" * 200, b"word " * 40, b"trailing blank ", b"x:y; b=zzz; bh=qqq", b"fold " + b"f" * 70 + b" end",
+            b"Re: Status of the build", b"a : b :c: d", b"Fwd:  Re:\tx", b"ends with colon:", b": starts with colon", b"10:30 : meeting ; x = y"]
+XVALS = [None, b"key: value : more", b"plain", b"with  double  blanks", b"tab\there", "ünï".encode(), b"v" * 1500, b"b=fake; h=from"]
 
 
 def gen(rng, n):
@@ -41,6 +42,9 @@ def gen(rng, n):
         hc, bc = "sr"[(i // 2) % 2], "sr"[i % 2]
         names = NAME_LISTS[i % len(NAME_LISTS)] if i < 4 * len(NAME_LISTS) else rng.choice(NAME_LISTS)
         subj = SUBJECTS[i % len(SUBJECTS)] if i < 3 * len(SUBJECTS) else rng.choice(SUBJECTS)
+        if i >= 3 * len(SUBJECTS) and rng.random() < 0.4:
+            # white space next to every kind of separator a canonicalizer might treat specially
+            subj = b"".join(rng.choice([b" ", b"  ", b"\t", b":", b";", b"=", b"a", b"Re", b"b", "é".encode(), b",", b"<", b">"]) for _ in range(rng.randint(1, 14)))
         xa, xb = rng.choice(XVALS), rng.choice(XVALS)
         sel = rng.choice([b"sel", b"s2024", b"a.b-c_d", b"x" * 60])
         dom = rng.choice([b"x.example", b"mail.sub.example.org", b"d" * 50 + b".example"])
